@@ -409,7 +409,37 @@ func (e *Enc) freshVal(st *State, hint string, t types.Type) *Val {
 		}
 	}
 	e.sliceWellFormed(v)
+	e.nestedSlicesWellFormed(v)
 	return v
+}
+
+// nestedSlicesWellFormed: slice-typed components of a tuple / struct value (four consecutive leaves base, off, len, cap
+// of one slice type) satisfy len <= cap and "nil base => empty", like top-level slice values.
+func (e *Enc) nestedSlicesWellFormed(v *Val) {
+	if v.T == nil {
+		return
+	}
+	if _, ok := v.T.Underlying().(*types.Slice); ok {
+		return // handled by sliceWellFormed
+	}
+	sh := e.TI.shape(v.T)
+	if len(sh) != len(v.L) {
+		return
+	}
+	for i := 0; i+3 < len(sh); i++ {
+		if _, isSlice := sh[i].T.Underlying().(*types.Slice); !isSlice {
+			continue
+		}
+		p := sh[i].Path
+		if !strings.HasSuffix(p, ".base") {
+			continue
+		}
+		pre := strings.TrimSuffix(p, ".base")
+		if sh[i+1].Path == pre+".off" && sh[i+2].Path == pre+".len" && sh[i+3].Path == pre+".cap" {
+			e.assert("(<= " + v.L[i+2].T + " " + v.L[i+3].T + ")")
+			e.assert("(=> (= " + v.L[i].T + " 0) (= " + v.L[i+2].T + " 0))")
+		}
+	}
 }
 
 // sliceWellFormed asserts 0<=len<=cap for every slice-shaped group of leaves in v (when v itself is a slice).
